@@ -294,6 +294,20 @@ def files(ck, prop, tmp, n):
             lines.append(gen.walk_record(rng, g, w, ("r%d" if utf8 < 0.8 or rng.random() < 0.7 else "M\u00fcller_\u8aad%d") % k, canonical=False))
         if not lines:
             continue
+        if rng.random() < 0.35:
+            # records that a parse-and-print cycle would NOT reproduce (sort must copy the raw line): a read name with a blank
+            # (GraphAligner keeps the FASTA header), a ds:Z: field, a repeated tag
+            for j in range(len(lines)):
+                r = rng.random()
+                f = lines[j].split("\t")
+                if r < 0.2:
+                    f[0] = f[0] + " len=%d sample 7" % rng.randint(1, 99)
+                elif r < 0.4:
+                    f.insert(rng.randint(12, len(f)), "ds:Z:+3*at-2")
+                elif r < 0.55:
+                    f += ["NM:i:1", "xx:Z:a", "NM:i:2"]
+                lines[j] = "\t".join(f)
+            ck.count("records-not-reproduced-by-parse-and-print")
         bg_in = rng.choice([0, 0, 1, 300])
         bg_out = rng.random() < 0.35
         # C10 ("plain or BGZF, any number of blocks"): now and then an output of several BGZF blocks (> 64 KiB of text),
